@@ -263,6 +263,18 @@ def loop_oracle(case, r):
             if case["policy"] == "Constant" and rho != case["rho"]:
                 return "rho_constant: trial %d used rho %r under the constant policy" % (k, rho)
             prev = rho
+    if case["rho"] > 0 and case["policy"] == "DualNorm":
+        # C16: never beyond max(rho0, largest |y|_inf of an iterate accepted so far), at most x10 per accepted step
+        m_ = len(case["y0"])
+        best = case["rho"]
+        for k, (rho, dt, disp, lret, aret) in enumerate(trials):
+            if rho > best:
+                return "rho_dualnorm: trial %d used rho %r > max(rho0, |y|_inf of accepted iterates) = %r" % (k, rho, best)
+            if k > 0 and rho > 10 * trials[k - 1][0]:
+                return "rho_dualnorm: rho raised by more than a factor ten at trial %d" % k
+            if k < len(ann) and ann[k][2] and m_ > 0:
+                zt = ann[k][1]
+                best = max(best, max(abs(v) for v in zt[len(zt) - m_:]))
     if r["kind"] in (0, 1, 2, 3, 4):
         # C12
         if r["iters"] != len(ann):
